@@ -633,6 +633,12 @@ def _run(case, seed):
 
     try:
         subject, fields, info = realize(case, seed)
+    except NotImplementedError as e:  # (a RuntimeError subclass: must come first)
+        # documented refusal (DESIGN 3.4): dask's svd on a matrix chunked along both axes — here the feature covariance of a
+        # whitened multi-item field in a deferred *fit*; whether that fit should work is C12's subject, not a transform answer
+        if case["prov"] == "deferred" and "chunked in one dimension only" in str(e):
+            return dict(outcome="refused:NotImplementedError", nontrivial=False)
+        raise
     except RuntimeError as e:
         if _non_convergence(e) and case["spec"] == "near_equal_var":
             return dict(outcome="refused:RuntimeError", nontrivial=False)
